@@ -246,9 +246,12 @@ Q = ["dflt", "rc"]
 TH = ["dflt", "rc", "atr", "astd", "mon", "opv2"]
 RULES = [
     {"id": "C03.R6", "fn": r6, "quick": Q, "thorough": TH},
-    {"id": "C03.R1", "fn": r1, "quick": Q, "thorough": TH},
-    {"id": "C03.R2", "fn": r2, "quick": Q, "thorough": TH},
+    {"id": "C03.R1", "fn": r1, "quick": Q + ["astd"], "thorough": TH},
+    {"id": "C03.R2", "fn": r2, "quick": Q + ["astd"], "thorough": TH},
     {"id": "C03.R3", "fn": r3, "quick": Q, "thorough": TH},
     {"id": "C03.R4", "fn": r4, "quick": Q, "thorough": TH},
     {"id": "C03.R5", "fn": r5, "quick": Q, "thorough": TH},
 ]
+from .positive import control
+RULES.append({"id": "C03.P", "fn": control('select'), "quick": ["pos"], "thorough": ["pos"]})
+DOC["C03.P"] = 'positive control: planted unbiased tokio::select! must be classified as not biased (and its biased twin as biased)'
